@@ -81,8 +81,30 @@ func c13R7(c *kit.Ctx, m *ruModel, e *kit.Func, r7 *kit.Rule) {
 		return true
 	})
 
+	// a pointer to a list element, `p := &list[i]` (single definition): reading
+	// or writing through it reads or writes the element itself
+	ptrTarget := func(x ast.Expr) ast.Expr {
+		id, ok := ast.Unparen(x).(*ast.Ident)
+		if !ok {
+			return x
+		}
+		o := kit.ObjOf(info, id)
+		if o == nil {
+			return x
+		}
+		if pt, isPtr := o.Type().(*types.Pointer); !isPtr || !isCond(pt.Elem()) {
+			return x
+		}
+		if rhs, _, _, n := c13SingleDef(e, o); n == 1 && rhs != nil {
+			if u, isU := ast.Unparen(rhs).(*ast.UnaryExpr); isU && u.Op == token.AND {
+				return u.X
+			}
+		}
+		return x
+	}
 	// element a storage expression denotes: (list expression, index expression)
 	elemOf := func(x ast.Expr) (list, idx ast.Expr, ok bool) {
+		x = ptrTarget(x)
 		ix, isIx := ast.Unparen(x).(*ast.IndexExpr)
 		if !isIx {
 			return nil, nil, false
